@@ -11,7 +11,7 @@ use tokio::sync::Semaphore;
 use tokio::time::{interval, MissedTickBehavior};
 
 use crate::core::DocumentMetadata;
-use crate::replication::MAX_CONCURRENT_REQUESTS;
+use crate::replication::{MAX_CONCURRENT_REQUESTS, REQUEST_TIMEOUT};
 use crate::rpc::services::consistency_impl::{
     BatchPayload,
     Context,
@@ -214,6 +214,7 @@ where
         let batch = batch.clone();
         let channel = ctx.network.get_or_connect(addr);
         let mut client = ConsistencyClient::<S>::new(ctx.clock.clone(), channel);
+        client.set_timeout(REQUEST_TIMEOUT);
 
         let task = tokio::spawn(async move {
             let _permit = limiter.acquire().await;
